@@ -518,11 +518,6 @@ pub fn cmd_run(name: &str, tier: &str, seed: u64, workers: usize, out: &str, rep
             }
         }
     }
-    for (_, _, dir, failed, _) in &results {
-        if !*failed {
-            let _ = std::fs::remove_dir_all(dir);
-        }
-    }
     let wall = t0.elapsed().as_secs_f64();
     let execs = stats.executions.load(Ordering::Relaxed);
     let distinct_shared = stats.shared_digests.lock().unwrap().len();
@@ -582,9 +577,18 @@ pub fn cmd_replay(path: &str) -> i32 {
     verif_seam::set_scheduling(false);
     match r {
         Err(_) => {
-            println!("reproduced: {}", crate::ctx::last_panic_take().unwrap_or_default());
-            println!("VIOLATION property={} replay={}", prop, path);
-            1
+            let msg = crate::ctx::last_panic_take().unwrap_or_default();
+            // only the scenario's own assertions count; a schedule that does not fit the program
+            // any more (shuttle: "schedule ended early", "expected context switch", ...) is not a
+            // reproduction
+            if msg.contains(&format!("{} ", prop)) {
+                println!("reproduced: {}", msg);
+                println!("VIOLATION property={} replay={}", prop, path);
+                1
+            } else {
+                println!("not reproduced: the recorded schedule does not fit this tree ({})", msg);
+                0
+            }
         }
         Ok(()) => {
             println!("not reproduced: the schedule of {} runs clean on this tree", path);
